@@ -162,6 +162,8 @@ func (w *World) Features() []string {
 	type ent struct {
 		level int
 		del   bool
+		seq   uint64
+		num   int64
 	}
 	per := map[string][]ent{}
 	tablesAt := map[int]int{}
@@ -176,8 +178,8 @@ func (w *World) Features() []string {
 		it := tr.NewIterator(nil, nil)
 		n := 0
 		for it.Next() {
-			if u, _, del, ok := leveldb.VerifParseIKey(it.Key()); ok {
-				per[string(u)] = append(per[string(u)], ent{t.Level, del})
+			if u, seq, del, ok := leveldb.VerifParseIKey(it.Key()); ok {
+				per[string(u)] = append(per[string(u)], ent{t.Level, del, seq, t.Num})
 				n++
 			}
 		}
@@ -205,6 +207,18 @@ func (w *World) Features() []string {
 	}
 	if multiEntry {
 		f["multi-entry-table"] = true
+	}
+	for _, es := range per {
+		for _, a := range es {
+			for _, b := range es {
+				if a.seq > b.seq && a.num < b.num {
+					f["newer-version-in-lower-numbered-table"] = true
+					if a.del {
+						f["newer-tombstone-in-lower-numbered-table"] = true
+					}
+				}
+			}
+		}
 	}
 	gapKeys := 0
 	for _, es := range per {
